@@ -1010,7 +1010,9 @@ impl MdGen<'_> {
                 mk(format!("out {k}"), "plain", eq)
             };
         }
-        match rng.below(34) {
+        match rng.below(37) {
+            32 | 33 => mk(rng.pick(BIG_BRACKETS).to_string(), "big-bracket", eq),
+            34 if pos >= 1 => mk(format!("> later {k}"), "gt", eq),
             0 => mk(String::new(), "blank", eq),
             1 => mk("   ".into(), "ws-only", eq),
             2 => mk(format!("  lead {k}"), "lead-ws", eq),
@@ -1142,10 +1144,24 @@ impl MdGen<'_> {
         if self.rng.chance(3, 10) {
             let codes: &[i32] = if self.opts.benign { &[1, 2, 127, 255] } else { &[0, 1, 2, 127, 255] };
             let code = *self.rng.pick(codes);
-            if s.body.len() >= 2 && self.rng.chance(1, 7) && !self.opts.benign {
+            if s.body.len() >= 2 && self.rng.chance(1, 4) && !self.opts.benign {
                 let at = self.rng.range(1, s.body.len() - 1);
                 // a `> x` line directly behind the exit code stays an expectation
                 s.body.insert(at, Body::Exit(code));
+            } else if !self.opts.benign && self.rng.chance(1, 4) {
+                // the exit code directly behind the command ends the command: a `> x` line that
+                // follows is output, not a continuation
+                s.body.insert(0, Body::Exit(code));
+                if self.rng.chance(3, 4) {
+                    s.body.insert(
+                        1,
+                        Body::Exp {
+                            text: format!("> after exit {k}"),
+                            kind: Some(("equal".into(), false, false)),
+                            class: "gt-after-exit".into(),
+                        },
+                    );
+                }
             } else {
                 s.body.push(Body::Exit(code));
             }
@@ -1798,6 +1814,14 @@ pub fn expect_cram(doc: &CramDoc) -> Expected {
     e
 }
 
+/// `[digits]` with a value an exit code can have (i32): read as exit code; longer digit runs
+/// are ordinary expectation text
+pub fn reads_as_exit_code(text: &str) -> bool {
+    text.len() > 2 && text.starts_with('[') && text.ends_with(']') && text[1..text.len() - 1].bytes().all(|b| b.is_ascii_digit()) && text[1..text.len() - 1].parse::<i32>().is_ok()
+}
+
+const BIG_BRACKETS: &[&str] = &["[2147483648]", "[4294967296]", "[9999999999]", "[20240131093000]", "[18446744073709551616]", "[99999999999999999999]"];
+
 /// is the item list a faithful description of its rendering? (guards hand-written / shrunk cases)
 pub fn cram_wellformed(doc: &CramDoc) -> Result<(), String> {
     let mut prev_open_test = false; // previous item is a test (still open: no blank/title in between)
@@ -1856,7 +1880,7 @@ pub fn cram_wellformed(doc: &CramDoc) -> Result<(), String> {
                                 return Err("expectation that reads as a continuation".into());
                             }
                             // `[n]` look-alikes are exit codes
-                            if text.starts_with('[') && text.ends_with(']') && text.len() > 2 && text[1..text.len() - 1].bytes().all(|b| b.is_ascii_digit()) {
+                            if reads_as_exit_code(text) {
                                 return Err("expectation that reads as an exit code".into());
                             }
                             state = 2;
@@ -1945,7 +1969,9 @@ pub fn gen_cram(rng: &mut Rng) -> CramDoc {
                 for _ in 0..nb {
                     comment(rng, &mut ls);
                     k += 1;
-                    let (text, class): (String, &str) = match rng.below(20) {
+                    let (text, class): (String, &str) = match rng.below(23) {
+                        16 | 17 => (rng.pick(BIG_BRACKETS).to_string(), "big-bracket"),
+                        18 if in_body => (format!("> later {k}"), "gt"),
                         0 => (String::new(), "empty"),
                         1 => ("  ".into(), "ws-only"),
                         2 => (" ".into(), "ws-only"),
@@ -1974,9 +2000,23 @@ pub fn gen_cram(rng: &mut Rng) -> CramDoc {
                     let code = *rng.pick(&[0, 1, 2, 127, 255]);
                     let body_start = ls.iter().position(|l| matches!(l, CLine::Exp { .. }));
                     match body_start {
-                        Some(b) if rng.chance(1, 7) && b + 1 < ls.len() => {
+                        Some(b) if rng.chance(1, 4) && b + 1 < ls.len() => {
                             let at = rng.range(b + 1, ls.len() - 1);
                             ls.insert(at, CLine::Exit(code));
+                        }
+                        _ if rng.chance(1, 4) => {
+                            // exit code directly behind the command, then output that starts with `> `
+                            let cmd_end = ls.iter().rposition(|l| matches!(l, CLine::Cmd(_) | CLine::Cont(_))).unwrap_or(0) + 1;
+                            ls.insert(cmd_end, CLine::Exit(code));
+                            if rng.chance(3, 4) {
+                                ls.insert(
+                                    cmd_end + 1,
+                                    CLine::Exp {
+                                        text: format!("> after exit {k}"),
+                                        class: "gt-after-exit".into(),
+                                    },
+                                );
+                            }
                         }
                         _ => ls.push(CLine::Exit(code)),
                     }
@@ -2160,7 +2200,7 @@ pub fn md_wellformed(doc: &MdDoc) -> Result<(), String> {
                         if s.cmd.is_empty() && j == 0 && text.starts_with('#') {
                             return Err("expectation that reads as a comment".into());
                         }
-                        if text.starts_with('[') && text.ends_with(']') && text.len() > 2 && text[1..text.len() - 1].bytes().all(|b| b.is_ascii_digit()) {
+                        if reads_as_exit_code(text) {
                             return Err("expectation that reads as an exit code".into());
                         }
                     }
